@@ -219,7 +219,12 @@ class SuitObject(PrettyPrintHelperMixin):
     @classmethod
     def from_cbor(cls, cbstr: bytes) -> SuitObject:
         """Restore SUIT representation from passed CBOR."""
-        return cls(cls.deserialize_cbor(cbstr))
+        value = cls.deserialize_cbor(cbstr)
+        if cls.serialize_cbor(value) != cbstr:
+            # cbor2.loads() silently ignores trailing bytes; a byte string which merely starts with (or is a
+            # non-preferred encoding of) an item of this type is not an item of this type
+            raise ValueError(f"Not an exact encoding of a single item: {cbstr.hex()}")
+        return cls(value)
 
     def to_cbor(self) -> bytes:
         """Dump SUIT representation to cbor."""
